@@ -130,7 +130,7 @@ Cands ==
   \cup {Op(nm, s, t, NoX, 0, NoW) : nm \in {"ctor_copy", "ctor_move", "ctor_ref", "ctor_other", "ctor_il"}, s \in DeadS, t \in LiveS}
   \* assignments to a live slot
   \cup UNION {{Op(nm, s, t, NoX, 0, NoW) : nm \in {"assign_copy", "assign_move", "assign_other", "assign_il", "swap", "assign_range"}, t \in LiveS \ {s}} : s \in LiveS}
-  \cup UNION {UNION {{Op("assign_view", s, t, NoX, 0, w) : w \in Wrappers(arr[t])} : t \in LiveS \ {s}} : s \in LiveS}
+  \cup UNION {UNION {{Op(nm, s, t, NoX, 0, w) : nm \in {"assign_view", "assign_rview"}, w \in Wrappers(arr[t])} : t \in LiveS \ {s}} : s \in LiveS}
   \* assignment between array_ref's over the storage of two arrays of equal extents: deep, no allocation, storage kept
   \cup UNION {{Op(nm, s, t, NoX, 0, NoW) : nm \in {"ref_assign", "ref_assign_move"},
                  t \in {q \in LiveS \ {s} : arr[q].shape = arr[s].shape /\ arr[q].first = arr[s].first /\ NE(arr[q]) > 0}} : s \in LiveS}
@@ -161,7 +161,8 @@ Result(o) ==   \* new value of slot o.s
     [] o.op = "ctor_iota"     -> IotaArr(o.x, o.v)
     [] o.op = "ctor_iota_al"  -> IotaArr(o.x, 10)
     [] o.op \in {"ctor_copy_al", "ctor_move_al"} -> arr[o.t]
-    [] o.op \in {"ctor_view", "decay", "assign_view"} -> Src(o)
+    \* (assign_rview: the source view is a TEMPORARY; a view is a reference-like handle, so the source array keeps its elements)
+    [] o.op \in {"ctor_view", "decay", "assign_view", "assign_rview"} -> Src(o)
     \* a pair of iterators carries no index base for the leading dimension
     [] o.op = "ctor_range" -> ZeroLead(Src(o))
     [] o.op = "assign_range" -> IF arr[o.t].shape = arr[o.s].shape
